@@ -59,7 +59,7 @@ def run(ctx):
         await w.start(loop)
         log = ctx.log
         plan = ctx.stream('plan')
-        o = Oracles(w, ['C07'])
+        o = Oracles(w, ctx.params.get('props') or ['C07'])
         holder['o'] = o
         w.on_commit.append(o.on_commit)
         w.server.on_sql_error = o.sql_error
@@ -158,6 +158,23 @@ def run(ctx):
                                         gspecs[i:i + k])
                     log.add(f'adder{idx}', 'groups_create', uid, i + 1, k, stt)
                     ok = stt == 200
+                    if ok and 'C06' in o.props:
+                        # the tree the client asked for is the tree completion is propagated along: every group of
+                        # this request must hang beneath the parent its spec named
+                        start_g = js['start_job_group_id']
+                        for spec in gspecs[i:i + k]:
+                            gid = start_g + spec['job_group_id'] - 1
+                            want = spec['absolute_parent_id'] if 'absolute_parent_id' in spec else \
+                                start_g + spec['in_update_parent_id'] - 1
+                            got = w.sql('SELECT ancestor_id FROM job_group_self_and_ancestors WHERE batch_id = %s AND '
+                                        'job_group_id = %s AND level = 1', (bid, gid))
+                            if not got or got[0]['ancestor_id'] != want:
+                                ctx.probe('group_parent_mismatch')
+                                raise Violation('C06', 'group_tree', 'C06/job_group_attached_to_wrong_parent',
+                                                f'job group {(bid, gid)} (update {uid}, in-update id '
+                                                f'{spec["job_group_id"]}) was requested beneath group {want} but is '
+                                                f'recorded beneath {[r["ancestor_id"] for r in got]}')
+                            ctx.probe('group_parent_checked')
                     i += k
                     await asyncio.sleep(a.ticks(2500))
                 if ok and n_jobs:
